@@ -6,9 +6,9 @@ CHECKS = {
   "technique": "Coq refinement proof of a functional model + in-Coq functional correspondence on operation sequences",
  },
  "C02": {
-  "text": "Coq: exhaustive reference decision procedure proven sound and complete w.r.t. 'a valid selection exists' (solvableb_correct); every verdict of the real solver is compared with it.",
-  "technique": "Coq-verified complete reference decision procedure vs implementation verdict; differential over seeded universes and activity parameters",
-  "note": "Theorem currently about the reference procedure; the trace-level theorem (learnt clauses entailed, level-1 conflict => unsolvable) is added later.",
+  "text": 'Coq: E1 (every valid selection satisfies every encoder clause), RUP soundness, check_unsat_sound: a database of facts and learnt clauses certified by RUP from their recorded antecedents that propagates to a root-level conflict admits no valid selection (C02_trace_no_false_unsat), hence a solvable problem is never acceptably refuted. Every Unsolvable hook log goes through the extracted checker; every verdict is compared with the verified complete reference procedure.',
+  "technique": 'Coq refutation-certificate theorem (facts + RUP-checked learnt clauses) + verified trace checker + verified reference decision procedure',
+  "note": "Termination of the CDCL loop is observed (poll watchdog), not proved: 'returns a solution whenever one exists' is proved for runs that end.",
  },
  "C04": {
   "text": "Every generated universe is solved and every conflict rendered under catch_unwind, a poll watchdog and an output-size cap, debug and release. Partial: panic-freedom/termination theorems for the renderer model are added later.",
@@ -16,20 +16,21 @@ CHECKS = {
   "note": "partial: outer CDCL loop termination is observed, not proved.",
  },
  "C05": {
-  "text": "Coq: support (reachability through requirement edges inside the solution) with a verified decision procedure incl. the saturation argument (supportedb_spec); applied to every returned solution.",
-  "technique": "Coq-verified support oracle applied to implementation outputs",
+  "text": 'Coq: support theorem for every legal final trail (supported sub-model argument, induction along the trail; C05_supported / C05_trace_supported) plus run invariant (every reachable trail is legal). Hook logs are replayed by the extracted checker; every returned solution is also judged by the verified support oracle.',
+  "technique": 'Coq theorem over final trails of the abstract machine + verified trace checker + Coq-verified support oracle',
+  "note": 'When a package-level clause of an accepted soft solvable is falsified (documented exemption) the trace theorem does not apply; the oracle decides those cases (counted in evidence).',
  },
  "C07": {
-  "text": "Coq: greedy_ok spec and verified checker (greedy_okb_spec, greedy_sound); whenever the verified procedure finds the greedy selection the solver's answer must equal it.",
-  "technique": "Coq-verified greedy-selection oracle vs implementation output on conflict-free universes",
+  "text": 'Coq: invariant over all runs (trail stays inside the greedy assignment; rule D1) and final theorem C07_greedy_exact / C07_trace_greedy: on a greedy_ok problem every accepted run returns exactly the greedy selection. Hook logs replayed by the extracted checker (D1 enforced on every decision); outputs compared with the verified greedy oracle.',
+  "technique": 'Coq invariant proof over runs of the abstract machine + verified trace checker (rule D1) + Coq-verified greedy oracle',
  },
  "C08": {
-  "text": "Coq: verified reference search for a valid selection containing all first-ranked root candidates (solvable_with_spec); when it exists the returned solution must contain them.",
-  "technique": "Coq-verified reference search (solvable_with) vs implementation output",
+  "text": 'Coq: two invariants over all runs (trail below the oldest non-root decision stays inside a_{S*}; no root requirement open at a non-root decision: rules D1+D2) and final theorem C08_explicit_first / C08_trace_explicit. Hook logs replayed by the extracted checker (D1, D2 enforced); outputs compared with the verified reference search.',
+  "technique": 'Coq invariant proof over runs of the abstract machine + verified trace checker (rules D1, D2) + Coq-verified reference search',
+  "note": 'Soft requirements are outside the theorem (explored only).',
  },
  "C01": {
-  "text": "Coq: validity spec (Spec.v) with a verified decision procedure (validb_spec); every solution the real solver returns on generated universes (debug+release, sync+yielding) is judged by the extracted procedure.",
-  "technique": "Coq-verified validity oracle (validb <-> valid) applied to implementation outputs; differential over seeded universes",
-  "note": "Currently the theorem is about the oracle; the trace-inclusion theorem (Run -> valid) is added in a later commit.",
+  "text": "Coq: E2 (a model of a closed clause database selects a valid set, any provider), final-state theorem check_sat_lenient_sound, and trace inclusion C01_trace_sound: if the extracted checker accepts the implementation's hook log (clause dump = facts of the encoding, legal trail events, reported solution) the solution is valid. Independently every returned solution (debug+release, sync+yield) is judged by the verified oracle o_valid.",
+  "technique": 'Coq theorem over all runs of an abstract CDCL machine + verified trace checker on hook logs + Coq-verified validity oracle on outputs',
  },
 }
